@@ -539,6 +539,8 @@ public:
     basic_json_options& nan_to_num(const string_type& value)
     {
         this->enable_nan_to_num_ = true;
+        this->enable_nan_to_str_ = false;
+        this->enable_str_to_nan_ = false;
         this->nan_to_str_.clear();
         this->nan_to_num_ = value;
         return *this;
@@ -547,6 +549,8 @@ public:
     basic_json_options& inf_to_num(const string_type& value)
     {
         this->enable_inf_to_num_ = true;
+        this->enable_inf_to_str_ = false;
+        this->enable_str_to_inf_ = false;
         this->inf_to_str_.clear();
         this->inf_to_num_ = value;
         return *this;
@@ -555,6 +559,8 @@ public:
     basic_json_options& neginf_to_num(const string_type& value)
     {
         this->enable_neginf_to_num_ = true;
+        this->enable_neginf_to_str_ = false;
+        this->enable_str_to_neginf_ = false;
         this->neginf_to_str_.clear();
         this->neginf_to_num_ = value;
         return *this;
@@ -564,6 +570,7 @@ public:
     {
         this->enable_nan_to_str_ = true;
         this->enable_str_to_nan_ = enable_inverse;
+        this->enable_nan_to_num_ = false;
         this->nan_to_num_.clear();
         this->nan_to_str_ = value;
         return *this;
@@ -573,6 +580,7 @@ public:
     {
         this->enable_inf_to_str_ = true;
         this->enable_str_to_inf_ = enable_inverse;
+        this->enable_inf_to_num_ = false;
         this->inf_to_num_.clear();
         this->inf_to_str_ = value;
         return *this;
@@ -582,6 +590,7 @@ public:
     {
         this->enable_neginf_to_str_ = true;
         this->enable_str_to_neginf_ = enable_inverse;
+        this->enable_neginf_to_num_ = false;
         this->neginf_to_num_.clear();
         this->neginf_to_str_ = value;
         return *this;
